@@ -229,12 +229,15 @@ def list_over_list(I, st, node, g, src):
     j2 = z3.FreshConst(z3.IntSort(), "j2")
     ritems = I.list_items(st, o)
     st.assume(z3.And(n >= 0, n <= ln))
+    # explicit alternative triggers: the element read as well as the index map (z3 would pick the index map only, and a
+    # goal about `result[j]` would never reach the source list)
     st.assume(z3.ForAll([j], z3.Implies(z3.And(0 <= j, j < n),
                                         z3.And(0 <= f(j), f(j) < ln, z3.substitute(cond, (i, f(j))),
                                                z3.Select(ritems, j) == z3.substitute(ev.term, (i, f(j))),
-                                               ginv(f(j)) == j))))
+                                               ginv(f(j)) == j)), patterns=[z3.Select(ritems, j), f(j)]))
     st.assume(z3.ForAll([j, j2], z3.Implies(z3.And(0 <= j, j < j2, j2 < n), f(j) < f(j2))))
-    st.assume(z3.ForAll([i], z3.Implies(z3.And(0 <= i, i < ln, cond), z3.And(0 <= ginv(i), ginv(i) < n, f(ginv(i)) == i))))
+    st.assume(z3.ForAll([i], z3.Implies(z3.And(0 <= i, i < ln, cond), z3.And(0 <= ginv(i), ginv(i) < n, f(ginv(i)) == i)),
+                        patterns=[z3.Select(items, i), ginv(i)]))
     I.set_list(st, o, n, ritems)
     return o
 
@@ -321,8 +324,10 @@ def list_sort(I, st, obj, kwargs, node):
     i = z3.FreshConst(z3.IntSort(), "si")
     j = z3.FreshConst(z3.IntSort(), "sj")
     rng = lambda x: z3.And(0 <= x, x < ln)
-    st.assume(z3.ForAll([i], z3.Implies(rng(i), z3.And(rng(perm(i)), z3.Select(new, i) == z3.Select(items, perm(i)), inv(perm(i)) == i))))
-    st.assume(z3.ForAll([j], z3.Implies(rng(j), z3.And(rng(inv(j)), perm(inv(j)) == j))))
+    st.assume(z3.ForAll([i], z3.Implies(rng(i), z3.And(rng(perm(i)), z3.Select(new, i) == z3.Select(items, perm(i)), inv(perm(i)) == i)),
+                        patterns=[z3.Select(new, i), perm(i)]))
+    st.assume(z3.ForAll([j], z3.Implies(rng(j), z3.And(rng(inv(j)), perm(inv(j)) == j)),
+                        patterns=[z3.Select(items, j), inv(j)]))
 
     def key_of(idx):
         ev = I.elem_val(st, kd, z3.Select(new, idx))
